@@ -31,7 +31,7 @@ structure AppCfg where
   file : Path
   roller : RollerCfg
   /-- `true`: `get_writer` truncates on every reopen when `append(false)` (the code today, F10) -/
-  truncateEveryReopen : Bool := true
+  truncateEveryReopen : Bool := false
 
 structure AppState where
   disk : Disk
